@@ -82,7 +82,7 @@ def build_loop_pair(chain):
             scripth.Case(rt_plain + pre + [R.Repeat('count', body_plain, n=N(value=2))] + tail_plain, tag=tag + ' (plain)', doms=doms))
 
 
-def build_pair(chain, timeat=False, tail_kind='light'):
+def build_pair(chain, timeat=False, tail_kind='light', before=None):
     """-> (case_with_chain, case_plain) sharing the same symbolic literals.  With timeat the pending
     delay is a time-of-day wait instead of a number."""
     m0 = chain[0]
@@ -93,7 +93,8 @@ def build_pair(chain, timeat=False, tail_kind='light'):
         sid[0] += 1
         doms[sid[0]] = dom
         return N(sid=sid[0], kind='any')
-    pre = [R.Units(m0)]
+    # `before`: the chain's run is the second run of its Machine, and the script relies on logical units being the default
+    pre = [R.Units(m0)] if not (before and m0 == 'logical') else []
     for r, d in zip(REGS[m0], DOM[m0]):
         pre.append(R.SetReg(r, num(d)))
     pre.append(R.SetReg('kelvin', num(('int', 1500, 9000))))
@@ -102,8 +103,8 @@ def build_pair(chain, timeat=False, tail_kind='light'):
     pre.append(R.SetReg('duration', num(('real', 0, tmax))))
     tail = TAILS[tail_kind]()
     sw = [R.Units(m) for m in chain[1:]]
-    tag = '>'.join(chain) + (' [time at]' if timeat else '') + ('' if tail_kind == 'light' else ' [%s]' % tail_kind)
-    return (scripth.Case(pre + sw + tail, tag=tag, doms=doms), scripth.Case(pre + tail, tag=tag + ' (plain)', doms=doms))
+    tag = '>'.join(chain) + (' [time at]' if timeat else '') + ('' if tail_kind == 'light' else ' [%s]' % tail_kind) + (' [second run]' if before else '')
+    return (scripth.Case(pre + sw + tail, tag=tag, doms=doms, before=before), scripth.Case(pre + tail, tag=tag + ' (plain)', doms=doms))
 
 
 def color_close(a, b, tol, rgb_involved):
@@ -146,7 +147,7 @@ def fold_delays(trace):
 
 def pair_worker(args):
     chain = args['chain']
-    ca, cb = build_loop_pair(chain) if args.get('loop') else build_pair(chain, args.get('timeat', False), args.get('tail', 'light'))
+    ca, cb = build_loop_pair(chain) if args.get('loop') else build_pair(chain, args.get('timeat', False), args.get('tail', 'light'), args.get('before'))
     res = report.WorkResult(ca.tag)
     world.start_function_trace()
     res.sites.add('relational')
@@ -436,6 +437,10 @@ def run(tier, seed):
         if tail != 'light':
             items += [{'chain': c, 'tail': tail, 'timeout_ms': 10000, 'max_paths': 2000, 'budget_s': 30 if tier == 'quick' else 120}
                       for c in chains if len(c) <= (2 if tier == 'quick' else 3)]
+    # the chain's run is the second run of its Machine; the first one ended in another unit mode
+    for before in ('units raw hue 1000 time 5 set "A"', 'hue 20 units rgb red 50 duration 2 set all'):
+        items += [{'chain': c, 'before': before, 'timeout_ms': 10000, 'max_paths': 2000, 'budget_s': 30 if tier == 'quick' else 120}
+                  for c in chains if c[0] == 'logical' and len(c) <= 2]
     items += [{'chain': (a, b), 'loop': True, 'timeout_ms': 10000, 'max_paths': 2000, 'budget_s': 30 if tier == 'quick' else 120} for a in MODES for b in MODES if a != b]
     results, skipped = report.run_pool(dispatch, items, budget_s=common.tier_budget(tier, 80, 1000))
     return report.finish(
